@@ -112,6 +112,7 @@ struct TxRec {
     refs: Vec<RefWrite>,
     publish_returned: bool,
     description: String,
+    restore: bool,
 }
 
 #[derive(Default)]
@@ -130,6 +131,7 @@ struct Model {
     written_views: Vec<(ViewId, op_store::View)>,
     max_heads_seen: usize,
     ioerr_cmds: BTreeSet<(usize, usize)>,
+    restores_written: u64,
 }
 
 impl Model {
@@ -161,6 +163,9 @@ struct RunCfg {
     skew_ms: Vec<i64>,
     older_op_chance: usize, // 1/x, 0 = never
     changed_paths: bool,
+    /// transactions that replace the whole view by an older operation's
+    /// (`jj op restore`); only in C46 runs, the C13 intent model cannot follow them
+    restores: bool,
 }
 
 struct Shared {
@@ -576,16 +581,83 @@ fn check_changed_paths_c22(shared: &Shared, sim: &Sim, repo: &dyn Repo, ctx: &st
         want.sort();
         let mut got_sorted = got.clone();
         got_sorted.sort();
-        if got_sorted != want {
+        if got_sorted.windows(2).any(|w| w[0] == w[1]) {
             shared.model.lock().unwrap().violate(
                 "C22",
-                "changed_paths_differ_from_tree_diff",
-                "reposim:c22:changed_paths_differ_from_tree_diff".into(),
-                format!("{ctx}: commit {}: index says {:?}, diff against the parents' merged tree says {:?}", short(id), got, want),
+                "changed_path_listed_twice",
+                "reposim:c22:changed_path_listed_twice".into(),
+                format!("{ctx}: commit {}: index lists a path twice: {:?}", short(id), got),
                 at,
             );
             return;
         }
+        if parents.len() > 1 {
+            shared.model.lock().unwrap().probe("c22_merge_commit_checked");
+            if let Ok(noresolve) = jj_lib::rewrite::merge_commit_trees_no_resolve(repo, &parents).block_on() {
+                let unresolved_before = noresolve.conflicts().count();
+                let unresolved_after = parent_tree.conflicts().count();
+                if unresolved_before > unresolved_after {
+                    shared.model.lock().unwrap().probe("c22_merge_commit_parents_merge_resolved_by_content");
+                }
+            }
+        }
+        if got_sorted == want {
+            continue;
+        }
+        let missing: Vec<&String> = want.iter().filter(|p| !got_sorted.contains(p)).collect();
+        let extra: Vec<&String> = got_sorted.iter().filter(|p| !want.contains(p)).collect();
+        if std::env::var_os("JJSIM_DEBUG_C22").is_some() {
+            let noresolve = jj_lib::rewrite::merge_commit_trees_no_resolve(repo, &parents).block_on().unwrap();
+            for p in missing.iter().chain(extra.iter()) {
+                let rp = RepoPathBuf::from_internal_string((*p).clone()).unwrap();
+                eprintln!(
+                    "C22DEBUG commit {} parents {:?} path {p}\n  parents-merged-resolved: {:?}\n  parents-merged-noresolve: {:?}\n  commit: {:?}",
+                    short(id),
+                    parents.iter().map(|c| short(c.id())).collect::<Vec<_>>(),
+                    parent_tree.path_value(&rp).block_on(),
+                    noresolve.path_value(&rp).block_on(),
+                    commit.tree().path_value(&rp).block_on()
+                );
+            }
+        }
+        // Known finding (known_findings.jsonl): a merge commit that merely
+        // inherits an unresolvable conflict from the automatic merge of its
+        // parents is recorded as changing that path, because the index (like
+        // the un-indexed files() predicate) compares the commit's simplified
+        // conflict with the *unsimplified* terms of the parents' merge. It is
+        // recognised narrowly: only extra paths, only on merge commits, the
+        // path's value in the resolved merge of the parents equals the
+        // commit's value and is a conflict.
+        let mut inherited_conflict_only = missing.is_empty() && parents.len() > 1;
+        if inherited_conflict_only {
+            for p in &extra {
+                let rp = RepoPathBuf::from_internal_string((*p).clone()).unwrap();
+                let before = parent_tree.path_value(&rp).block_on();
+                let after = commit.tree().path_value(&rp).block_on();
+                match (before, after) {
+                    (Ok(b), Ok(a)) if b == a && !a.is_resolved() => {}
+                    _ => inherited_conflict_only = false,
+                }
+            }
+        }
+        if inherited_conflict_only {
+            shared.model.lock().unwrap().violate(
+                "C22",
+                "inherited_conflict_recorded_as_changed",
+                "reposim:c22:merge_commit_inherited_conflict_recorded_as_changed".into(),
+                format!("{ctx}: merge commit {}: index says {:?}, diff against the parents' merged tree says {:?}; the extra paths hold the same unresolved conflict in both", short(id), got, want),
+                at,
+            );
+            continue;
+        }
+        shared.model.lock().unwrap().violate(
+            "C22",
+            "changed_paths_differ_from_tree_diff",
+            "reposim:c22:changed_paths_differ_from_tree_diff".into(),
+            format!("{ctx}: commit {} ({} parents): index says {:?}, diff against the parents' merged tree says {:?}", short(id), parents.len(), got, want),
+            at,
+        );
+        return;
     }
     let mut model = shared.model.lock().unwrap();
     if indexed > 0 {
@@ -594,6 +666,107 @@ fn check_changed_paths_c22(shared: &Shared, sim: &Sim, repo: &dyn Repo, ctx: &st
     if indexed as usize >= ids.len().min(50) && !ids.is_empty() {
         model.probe("c22_all_visible_commits_indexed");
     }
+}
+
+fn copy_dir_all(src: &Path, dst: &Path) -> std::io::Result<()> {
+    std::fs::create_dir_all(dst)?;
+    for e in std::fs::read_dir(src)? {
+        let e = e?;
+        let to = dst.join(e.file_name());
+        if e.file_type()?.is_dir() {
+            copy_dir_all(&e.path(), &to)?;
+        } else {
+            std::fs::copy(e.path(), &to)?;
+        }
+    }
+    Ok(())
+}
+
+fn eval_files_revset(repo: &dyn Repo, expr: jj_lib::fileset::FilesetExpression) -> Result<BTreeSet<CommitId>, String> {
+    use jj_lib::revset::ResolvedRevsetExpression;
+    use jj_lib::revset::RevsetFilterPredicate;
+    let e: Arc<ResolvedRevsetExpression> = RevsetExpression::filter(RevsetFilterPredicate::File(expr));
+    let revset = e.evaluate(repo).map_err(|e| err_chain(&e))?;
+    let mut out = BTreeSet::new();
+    let mut stream = revset.stream();
+    while let Some(r) = stream.next().block_on() {
+        out.insert(r.map_err(|e| err_chain(&e))?);
+    }
+    Ok(out)
+}
+
+/// C22, the statement's consequence: file-filtered queries return the same
+/// commits with and without the changed-path index. The "without" side is a
+/// copy of the repository whose index directory was emptied, so the index is
+/// rebuilt from the backend with no changed-path segments.
+fn check_files_queries_c22(shared: &Shared, repo: &Arc<ReadonlyRepo>) {
+    use jj_lib::fileset::FilesetExpression;
+    let copy_dir = shared.repo_dir.parent().unwrap().join("noidx");
+    let _ = std::fs::remove_dir_all(&copy_dir);
+    if copy_dir_all(&shared.repo_dir, &copy_dir).is_err() {
+        return;
+    }
+    let idx = jj_lib::default_index::DefaultIndexStore::load(&copy_dir.join("index"));
+    if idx.reinit().is_err() {
+        return;
+    }
+    let settings = make_settings(6, 80_000_000, 80_000_000, 2001, "+00:00", "");
+    let Ok(loader) = RepoLoader::init_from_file_system(&settings, &copy_dir, &jj_lib::default_backend_factories::default_backend_factories()) else {
+        return;
+    };
+    let Ok(op) = loader.load_operation(repo.op_id()).block_on() else { return };
+    let plain = match loader.load_at(&op).block_on() {
+        Ok(r) => r,
+        Err(e) => {
+            shared.model.lock().unwrap().violate("C18", "rebuild_failed", "reposim:c18:rebuild_failed".into(), format!("rebuilding the index of a copy from scratch failed: {}", err_chain(&e)), 0);
+            return;
+        }
+    };
+    // the copy must really be un-indexed, the original indexed for some commit
+    let some_head = repo.view().heads().iter().next().cloned();
+    if let Some(h) = &some_head
+        && matches!(plain.index().changed_paths_in_commit(h).block_on(), Ok(Some(_)))
+    {
+        shared.model.lock().unwrap().probe("c22_copy_unexpectedly_indexed");
+        return;
+    }
+    let mut exprs: Vec<(String, FilesetExpression)> = vec![("all()".to_string(), FilesetExpression::all())];
+    for p in TREE_PATHS.iter().chain(MULTILINE_PATHS.iter()) {
+        let rp = RepoPathBuf::from_internal_string(*p).unwrap();
+        exprs.push((format!("file:{p}"), FilesetExpression::file_path(rp)));
+    }
+    for p in ["d", "d/e"] {
+        let rp = RepoPathBuf::from_internal_string(p).unwrap();
+        exprs.push((format!("prefix:{p}"), FilesetExpression::prefix_path(rp)));
+    }
+    for (name, expr) in exprs {
+        let with = eval_files_revset(repo.as_ref(), expr.clone());
+        let without = eval_files_revset(plain.as_ref(), expr);
+        match (with, without) {
+            (Ok(a), Ok(b)) => {
+                if a != b {
+                    let only_with: Vec<String> = a.difference(&b).map(short).collect();
+                    let only_without: Vec<String> = b.difference(&a).map(short).collect();
+                    shared.model.lock().unwrap().violate(
+                        "C22",
+                        "files_query_differs_with_index",
+                        "reposim:c22:files_query_differs_with_index".into(),
+                        format!("files({name}) returns different commits with and without the changed-path index: only with the index {only_with:?}, only without {only_without:?}"),
+                        0,
+                    );
+                    return;
+                }
+                if !a.is_empty() {
+                    shared.model.lock().unwrap().probe("c22_files_query_nonempty_compared");
+                }
+            }
+            (Err(e), _) | (_, Err(e)) => {
+                shared.model.lock().unwrap().violate("C22", "files_query_error", "reposim:c22:files_query_error".into(), format!("files({name}) failed: {e}"), 0);
+                return;
+            }
+        }
+    }
+    shared.model.lock().unwrap().probe("c22_files_queries_compared");
 }
 
 /// C17 / C16: what other processes wrote reads back identically through this
@@ -840,6 +1013,113 @@ fn write_tree(mut_repo: &mut MutableRepo, base: &MergedTree, path: &str, content
     b.write_tree().block_on().map_err(|e| err_chain(&e))
 }
 
+const TREE_PATHS: [&str; 7] = ["f0", "f1", "f2", "f3", "d/a", "d/b", "d/e/x"];
+/// files with five lines that are edited one line at a time
+const MULTILINE_PATHS: [&str; 2] = ["m0", "d/m1"];
+
+/// 1-3 edits of a small path universe (nested directories, deletions, and a
+/// fixed content that several sides may write so that same-change merges and
+/// "edit that changes nothing" both occur).
+fn edit_tree(mut_repo: &mut MutableRepo, base: &MergedTree, d: &Draw<'_>, tag: &str) -> Result<MergedTree, String> {
+    use jj_lib::backend::TreeValue;
+    use jj_lib::merge::Merge;
+    use jj_lib::merged_tree_builder::MergedTreeBuilder;
+    let store = mut_repo.store().clone();
+    let n = 1 + d.weighted(&[6, 2, 1]);
+    let mut b = MergedTreeBuilder::new(base.clone());
+    for k in 0..n {
+        let mode = d.weighted(&[5, 2, 2, 4]);
+        let path = if mode == 3 {
+            MULTILINE_PATHS[d.n(MULTILINE_PATHS.len())]
+        } else {
+            TREE_PATHS[d.n(TREE_PATHS.len())]
+        };
+        let rp = RepoPathBuf::from_internal_string(path).unwrap();
+        match mode {
+            1 => {
+                b.set_or_remove(rp, Merge::absent());
+            }
+            3 => {
+                // change one line of a multi-line file (created on first use), so
+                // that edits of different lines by concurrent sides merge at the
+                // content level and edits of the same line conflict
+                let line = d.n(5);
+                let mut lines: Vec<String> = (1..=5).map(|i| format!("line {i}")).collect();
+                if let Ok(cur) = base.path_value(&rp).block_on()
+                    && let Some(Some(TreeValue::File { id, .. })) = cur.as_resolved()
+                    && let Ok(mut reader) = store.read_file(&rp, id).block_on()
+                {
+                    let mut buf = vec![];
+                    if tokio_read_all(&mut reader, &mut buf).is_ok() {
+                        let text = String::from_utf8_lossy(&buf).into_owned();
+                        let got: Vec<String> = text.lines().map(str::to_string).collect();
+                        if got.len() == 5 {
+                            lines = got;
+                        }
+                    }
+                }
+                lines[line] = format!("{tag}.{k}");
+                let content = lines.join("\n") + "\n";
+                let id = store
+                    .write_file(&rp, &mut content.as_bytes())
+                    .block_on()
+                    .map_err(|e| err_chain(&e))?;
+                b.set_or_remove(
+                    rp,
+                    Merge::normal(TreeValue::File {
+                        id,
+                        executable: false,
+                        copy_id: jj_lib::backend::CopyId::placeholder(),
+                    }),
+                );
+            }
+            w => {
+                let content = if w == 2 { "same\n".to_string() } else { format!("{tag}.{k}\n") };
+                let id = store
+                    .write_file(&rp, &mut content.as_bytes())
+                    .block_on()
+                    .map_err(|e| err_chain(&e))?;
+                b.set_or_remove(
+                    rp,
+                    Merge::normal(TreeValue::File {
+                        id,
+                        executable: w == 2 && k == 1,
+                        copy_id: jj_lib::backend::CopyId::placeholder(),
+                    }),
+                );
+            }
+        }
+    }
+    b.write_tree().block_on().map_err(|e| err_chain(&e))
+}
+
+/// Replaces one line of a five-line file (created when absent or not a plain file).
+fn set_line(mut_repo: &mut MutableRepo, base: &MergedTree, path: &str, line: usize, text: &str) -> Result<MergedTree, String> {
+    use jj_lib::backend::TreeValue;
+    let store = mut_repo.store().clone();
+    let rp = RepoPathBuf::from_internal_string(path).unwrap();
+    let mut lines: Vec<String> = (1..=5).map(|i| format!("line {i}")).collect();
+    if let Ok(cur) = base.path_value(&rp).block_on()
+        && let Some(Some(TreeValue::File { id, .. })) = cur.as_resolved()
+        && let Ok(mut reader) = store.read_file(&rp, id).block_on()
+    {
+        let mut buf = vec![];
+        if tokio_read_all(&mut reader, &mut buf).is_ok() {
+            let got: Vec<String> = String::from_utf8_lossy(&buf).lines().map(str::to_string).collect();
+            if got.len() == 5 {
+                lines = got;
+            }
+        }
+    }
+    lines[line] = text.to_string();
+    write_tree(mut_repo, base, path, &(lines.join("\n") + "\n"))
+}
+
+fn tokio_read_all(reader: &mut (impl futures::AsyncRead + Unpin), buf: &mut Vec<u8>) -> std::io::Result<usize> {
+    use futures::AsyncReadExt as _;
+    reader.read_to_end(buf).block_on()
+}
+
 fn target_val(repo: &dyn Repo, t: &RefTarget) -> RefVal {
     if t.is_absent() {
         return RefVal::from([None]);
@@ -1060,19 +1340,186 @@ impl RepoSim {
                 .collect();
             let root_id = tx.repo().store().root_commit_id().clone();
             let non_root: Vec<&Commit> = vis.iter().filter(|c| *c.id() != root_id).collect();
-            // 0 new commit, 1 rewrite(describe), 2 abandon, 3 bookmark, 4 tag, 5 wc, 6 divergent rewrite
+            // 0 new commit, 1 rewrite(describe), 2 abandon, 3 bookmark, 4 tag, 5 wc, 6 divergent rewrite,
+            // 7 squash (two predecessors), 8 restore an older operation's view, 9 split, 10 diamond
             let mkind = if shared.cfg.heads_focus {
                 0
             } else {
-                d.weighted(&[5, 3, 2, 4, 1, 2, 1])
+                d.weighted(&[5, 3, 2, 4, 1, 2, 1, 1, usize::from(shared.cfg.restores && m == 0), 1, 1])
             };
             match mkind {
-                1 if !non_root.is_empty() => {
+                8 => {
+                    // only operations the loaded one descends from (what `jj op restore` can name)
+                    let anc = sched::without_hooks(|| op_ancestors(shared, &loader, &[repo.op_id().hex()])).unwrap_or_default();
+                    let candidates: Vec<String> = shared
+                        .model
+                        .lock()
+                        .unwrap()
+                        .seen_heads
+                        .iter()
+                        .filter(|h| anc.contains(*h) && **h != repo.op_id().hex())
+                        .cloned()
+                        .collect();
+                    if candidates.is_empty() {
+                        continue;
+                    }
+                    let hex = &candidates[d.n(candidates.len())];
+                    let id = OperationId::try_from_hex(hex).unwrap();
+                    let op = loader.load_operation(&id).block_on().map_err(|e| CmdError::Load(err_chain(&e)))?;
+                    let view = op.view().block_on().map_err(|e| CmdError::Load(err_chain(&e)))?;
+                    tx.repo_mut().set_view(view.store_view().clone());
+                    sim.note("note:mut", format!("restore view of op {}", short(&id)));
+                    rec.restore = true;
+                    break;
+                }
+                10 if !vis.is_empty() => {
+                    // diamond: two siblings edit one line each of the same
+                    // multi-line file, and a merge commit takes the automatic
+                    // merge of both (content-level merge when the lines differ,
+                    // an inherited conflict when they are the same line)
+                    let base = vis[d.n(vis.len())].clone();
+                    let path = MULTILINE_PATHS[d.n(MULTILINE_PATHS.len())];
+                    let (l1, l2) = (d.n(5), d.n(5));
+                    let mut sides: Vec<Commit> = vec![];
+                    for (k, line) in [l1, l2].into_iter().enumerate() {
+                        let tree = set_line(tx.repo_mut(), &base.tree(), path, line, &format!("{uniq}.{m}.side{k}")).map_err(CmdError::Commit)?;
+                        let c = tx
+                            .repo_mut()
+                            .new_commit(vec![base.id().clone()], tree)
+                            .set_description(format!("diamond side {uniq}.{m}.{k}"))
+                            .write()
+                            .block_on()
+                            .map_err(|e| CmdError::Commit(err_chain(&e)))?;
+                        shared.model.lock().unwrap().written_commits.push((c.id().clone(), c.store_commit().as_ref().clone()));
+                        rec.created.push((c.id().clone(), c.change_id().clone()));
+                        sides.push(c);
+                    }
+                    let merged = jj_lib::rewrite::merge_commit_trees(tx.repo(), &sides)
+                        .block_on()
+                        .map_err(|e| CmdError::Commit(err_chain(&e)))?;
+                    let tree = if d.chance(1, 3) {
+                        edit_tree(tx.repo_mut(), &merged, d, &format!("{uniq}.{m}m")).map_err(CmdError::Commit)?
+                    } else {
+                        merged
+                    };
+                    let top = tx
+                        .repo_mut()
+                        .new_commit(sides.iter().map(|c| c.id().clone()).collect(), tree)
+                        .set_description(format!("diamond merge {uniq}.{m}"))
+                        .write()
+                        .block_on()
+                        .map_err(|e| CmdError::Commit(err_chain(&e)))?;
+                    sim.note("note:mut", format!("diamond on {} lines {l1},{l2} of {path} -> merge {}", short(base.id()), short(top.id())));
+                    shared.model.lock().unwrap().written_commits.push((top.id().clone(), top.store_commit().as_ref().clone()));
+                    rec.created.push((top.id().clone(), top.change_id().clone()));
+                    shared.model.lock().unwrap().probe("diamond_mutation");
+                }
+                9 if !non_root.is_empty() => {
+                    // split: the commit is rewritten, and a second commit with a new
+                    // change id records the same predecessor (what jj split does)
                     let c = non_root[d.n(non_root.len())].clone();
-                    let new = tx
+                    let first = tx
                         .repo_mut()
                         .rewrite_commit(&c)
-                        .set_description(format!("rewrite {uniq}.{m} of {}", short(c.id())))
+                        .set_description(format!("split {uniq}.{m}a of {}", short(c.id())))
+                        .write()
+                        .block_on()
+                        .map_err(|e| CmdError::Commit(err_chain(&e)))?;
+                    let second = tx
+                        .repo_mut()
+                        .rewrite_commit(&c)
+                        .clear_rewrite_source()
+                        .generate_new_change_id()
+                        .set_parents(vec![first.id().clone()])
+                        .set_description(format!("split {uniq}.{m}b of {}", short(c.id())))
+                        .write()
+                        .block_on()
+                        .map_err(|e| CmdError::Commit(err_chain(&e)))?;
+                    sim.note("note:mut", format!("split {} -> {} + {}", short(c.id()), short(first.id()), short(second.id())));
+                    {
+                        let mut model = shared.model.lock().unwrap();
+                        model.written_commits.push((first.id().clone(), first.store_commit().as_ref().clone()));
+                        model.written_commits.push((second.id().clone(), second.store_commit().as_ref().clone()));
+                        model.probe("split_mutation");
+                    }
+                    rec.rewritten.push((c.id().clone(), first.id().clone(), c.change_id().clone()));
+                    rec.created.push((second.id().clone(), second.change_id().clone()));
+                    rec.rewrite_pairs.push((c.id().clone(), first.id().clone()));
+                    rec.rewrite_pairs.push((c.id().clone(), second.id().clone()));
+                }
+                7 if non_root.len() >= 2 => {
+                    // squash `src` into `dst`: dst is rewritten with both as
+                    // predecessors, src is abandoned (what jj squash does)
+                    // half of the time prefer a pair that shares an evolution
+                    // ancestor (two halves of a split, divergent copies), so
+                    // that the squashed commit's history is a DAG, not a tree
+                    let mut related: Vec<(usize, usize)> = vec![];
+                    {
+                        let closure = |c: &Commit| -> BTreeSet<CommitId> {
+                            let mut seen = BTreeSet::new();
+                            let mut stack = vec![c.id().clone()];
+                            while let Some(id) = stack.pop() {
+                                if let Ok(cm) = tx.repo().store().get_commit(&id) {
+                                    for p in &cm.store_commit().predecessors {
+                                        if seen.insert(p.clone()) {
+                                            stack.push(p.clone());
+                                        }
+                                    }
+                                }
+                            }
+                            seen
+                        };
+                        let cl: Vec<BTreeSet<CommitId>> = non_root.iter().map(|c| closure(c)).collect();
+                        for i in 0..non_root.len() {
+                            for j in 0..non_root.len() {
+                                if i != j && !cl[i].is_disjoint(&cl[j]) {
+                                    related.push((i, j));
+                                }
+                            }
+                        }
+                    }
+                    let (dst, src) = if !related.is_empty() && d.chance(1, 2) {
+                        let (i, j) = related[d.n(related.len())];
+                        shared.model.lock().unwrap().probe("squash_of_related_commits");
+                        (non_root[i].clone(), non_root[j].clone())
+                    } else {
+                        (non_root[d.n(non_root.len())].clone(), non_root[d.n(non_root.len())].clone())
+                    };
+                    if dst.id() == src.id() {
+                        continue;
+                    }
+                    let new = tx
+                        .repo_mut()
+                        .rewrite_commit(&dst)
+                        .set_predecessors(vec![dst.id().clone(), src.id().clone()])
+                        .set_description(format!("squash {uniq}.{m} of {} into {}", short(src.id()), short(dst.id())))
+                        .write()
+                        .block_on()
+                        .map_err(|e| CmdError::Commit(err_chain(&e)))?;
+                    tx.repo_mut().record_abandoned_commit(&src);
+                    sim.note("note:mut", format!("squash {} into {} -> {}", short(src.id()), short(dst.id()), short(new.id())));
+                    shared.model.lock().unwrap().written_commits.push((new.id().clone(), new.store_commit().as_ref().clone()));
+                    rec.rewritten.push((dst.id().clone(), new.id().clone(), dst.change_id().clone()));
+                    rec.abandoned.push((src.id().clone(), src.change_id().clone()));
+                    rec.rewrite_pairs.push((dst.id().clone(), new.id().clone()));
+                    rec.rewrite_pairs.push((src.id().clone(), new.id().clone()));
+                    shared.model.lock().unwrap().probe("squash_mutation");
+                }
+                1 if !non_root.is_empty() => {
+                    let c = non_root[d.n(non_root.len())].clone();
+                    let amended = if d.chance(1, 3) {
+                        Some(edit_tree(tx.repo_mut(), &c.tree(), d, &format!("{uniq}.{m}a")).map_err(CmdError::Commit)?)
+                    } else {
+                        None
+                    };
+                    let mut builder = tx
+                        .repo_mut()
+                        .rewrite_commit(&c)
+                        .set_description(format!("rewrite {uniq}.{m} of {}", short(c.id())));
+                    if let Some(t) = amended {
+                        builder = builder.set_tree(t);
+                    }
+                    let new = builder
                         .write()
                         .block_on()
                         .map_err(|e| CmdError::Commit(err_chain(&e)))?;
@@ -1168,12 +1615,18 @@ impl RepoSim {
                     if parents.len() > 1 {
                         parents.retain(|p| *p.id() != root_id);
                     }
-                    let base_tree = parents[0].tree();
-                    let tree = if shared.cfg.heads_focus {
+                    let base_tree = if parents.len() > 1 && !shared.cfg.heads_focus && d.chance(2, 3) {
+                        // a real merge commit: starts from the automatic merge of its parents
+                        jj_lib::rewrite::merge_commit_trees(tx.repo(), &parents)
+                            .block_on()
+                            .map_err(|e| CmdError::Commit(err_chain(&e)))?
+                    } else {
+                        parents[0].tree()
+                    };
+                    let tree = if shared.cfg.heads_focus || (parents.len() > 1 && d.chance(1, 3)) {
                         base_tree
                     } else {
-                        write_tree(tx.repo_mut(), &base_tree, &format!("f{}", d.n(4)), &format!("{uniq}.{m}\n"))
-                            .map_err(CmdError::Commit)?
+                        edit_tree(tx.repo_mut(), &base_tree, d, &format!("{uniq}.{m}")).map_err(CmdError::Commit)?
                     };
                     let mut b = tx
                         .repo_mut()
@@ -1241,7 +1694,9 @@ impl RepoSim {
             }
         }
         rec.refs = diff_refs(repo.as_ref(), tx.repo());
-        Self::check_c11(shared, sim, tx.repo(), &rec, &auto, &options);
+        if !rec.restore {
+            Self::check_c11(shared, sim, tx.repo(), &rec, &auto, &options);
+        }
         // --- write, register intent, publish
         let desc = format!("tx {uniq}");
         rec.description = desc.clone();
@@ -1251,6 +1706,10 @@ impl RepoSim {
         let tx_index = {
             let mut model = shared.model.lock().unwrap();
             rec.id = model.txs.len();
+            if rec.restore {
+                model.restores_written += 1;
+                model.probe("restore_tx_written");
+            }
             model.txs.push(rec);
             model.written_ops.push((op.id().clone(), op.store_operation().clone()));
             model.txs.len() - 1
@@ -1546,7 +2005,16 @@ impl Engine for RepoSim {
                 let tree = if heads_focus {
                     prev.tree()
                 } else {
-                    write_tree(tx.repo_mut(), &prev.tree(), &format!("f{}", i % 4), &format!("init{i}\n")).unwrap()
+                    let t = write_tree(tx.repo_mut(), &prev.tree(), &format!("f{}", i % 4), &format!("init{i}\n")).unwrap();
+                    if i == 0 {
+                        // the multi-line files exist from the start, so that concurrent
+                        // one-line edits have a common base
+                        let five = "line 1\nline 2\nline 3\nline 4\nline 5\n";
+                        let t = write_tree(tx.repo_mut(), &t, MULTILINE_PATHS[0], five).unwrap();
+                        write_tree(tx.repo_mut(), &t, MULTILINE_PATHS[1], five).unwrap()
+                    } else {
+                        t
+                    }
                 };
                 let c = tx
                     .repo_mut()
@@ -1563,6 +2031,7 @@ impl Engine for RepoSim {
             tx.commit("init history").block_on().unwrap();
         }
         let changed_paths = prop == "C22" || chooser.chance(1, 4);
+        let restores = prop == "C46" && chooser.chance(1, 2);
         if changed_paths && !heads_focus {
             let settings = make_settings(8, 0, 0, 2001, "+00:00", "");
             let loader = RepoLoader::init_from_file_system(&settings, &repo_dir, &jj_lib::default_backend_factories::default_backend_factories()).unwrap();
@@ -1583,6 +2052,7 @@ impl Engine for RepoSim {
                 skew_ms: skew_ms.clone(),
                 older_op_chance,
                 changed_paths: changed_paths && !heads_focus,
+                restores,
             },
             root_op_hex,
         });
@@ -1818,9 +2288,12 @@ impl RepoSim {
         check_view_c10(shared, sim, repo.as_ref(), "quiescent");
         check_index_c18(shared, sim, repo.as_ref(), "quiescent", &mut nums);
         check_roundtrip(shared, sim, &loader, repo.as_ref(), "quiescent");
-        self.check_c13(shared, &loader, &repo, &reach);
+        if shared.model.lock().unwrap().restores_written == 0 {
+            self.check_c13(shared, &loader, &repo, &reach);
+        }
         if shared.cfg.changed_paths {
             check_changed_paths_c22(shared, sim, repo.as_ref(), "quiescent");
+            check_files_queries_c22(shared, &repo);
         }
         self.check_c46(shared, &repo, &reach);
     }
@@ -1889,6 +2362,96 @@ impl RepoSim {
                     return;
                 }
             }
+            // sound: everything listed is `v` itself or one of its recorded
+            // predecessors - recorded by the model, or in the commit objects
+            // (rewrites made by jj's own reconcile operations are only there)
+            let mut want2: BTreeSet<CommitId> = BTreeSet::new();
+            let mut stack = vec![v.clone()];
+            while let Some(c) = stack.pop() {
+                if let Ok(commit) = repo.store().get_commit(&c) {
+                    for p in &commit.store_commit().predecessors {
+                        if want2.insert(p.clone()) {
+                            stack.push(p.clone());
+                        }
+                    }
+                }
+            }
+            for l in &listed {
+                if l != v && !want.contains(l) && !want2.contains(l) {
+                    shared.model.lock().unwrap().violate(
+                        "C46",
+                        "evolution_lists_unrelated_commit",
+                        "reposim:c46:unrelated_commit".into(),
+                        format!("walk_predecessors({}) = {:?} lists {} which is not among its recorded predecessors", short(v), listed.iter().map(short).collect::<Vec<_>>(), short(l)),
+                        0,
+                    );
+                    return;
+                }
+            }
+            if listed.first() != Some(v) {
+                shared.model.lock().unwrap().violate("C46", "evolution_does_not_start_at_commit", "reposim:c46:start".into(), format!("walk_predecessors({}) = {:?} does not start with the commit itself", short(v), listed.iter().map(short).collect::<Vec<_>>()), 0);
+                return;
+            }
+            // complete also against the predecessors stored in the commit
+            // objects themselves (covers jj's own reconcile rewrites)
+            let mut known_gap = false;
+            for w in &want2 {
+                if !listed.contains(w) {
+                    if std::env::var_os("JJSIM_DEBUG_C46").is_some() {
+                        for c in &visible {
+                            let cm = repo.store().get_commit(c).unwrap();
+                            eprintln!(
+                                "C46DEBUG commit {} change {} parents {:?} preds {:?} head={} '{}'",
+                                short(c),
+                                short(cm.change_id()),
+                                cm.parent_ids().iter().map(short).collect::<Vec<_>>(),
+                                cm.store_commit().predecessors.iter().map(short).collect::<Vec<_>>(),
+                                heads.contains(c),
+                                cm.description().trim()
+                            );
+                        }
+                    }
+                    // Known finding (known_findings.jsonl): the commit was made
+                    // by the *unpublished* transaction that merges the several
+                    // closest common ancestors of a criss-cross operation merge;
+                    // it leaks into the real merge's view, but the operation
+                    // that recorded its predecessors is in nobody's ancestry.
+                    // the listed commit whose stored predecessor link is not followed
+                    let link: Option<CommitId> = listed
+                        .iter()
+                        .find(|l| repo.store().get_commit(l).is_ok_and(|c| c.store_commit().predecessors.contains(w)))
+                        .cloned();
+                    let from_virtual_base = link.as_ref().is_some_and(|l| {
+                        let made_by_model = shared.model.lock().unwrap().written_commits.iter().any(|(id, _)| id == l);
+                        !made_by_model && Self::unrecorded_and_criss_cross(repo, l)
+                    });
+                    if from_virtual_base {
+                        shared.model.lock().unwrap().violate(
+                            "C46",
+                            "evolution_of_commit_from_virtual_merge_base_missing",
+                            "reposim:c46:commit_from_criss_cross_merge_base_has_no_recorded_evolution".into(),
+                            format!("walk_predecessors({}) = {:?} does not list {}: the commit was created while merging the common ancestors of a criss-cross operation merge and no operation in the log records it", short(v), listed.iter().map(short).collect::<Vec<_>>(), short(w)),
+                            0,
+                        );
+                        known_gap = true;
+                        break;
+                    }
+                    shared.model.lock().unwrap().violate(
+                        "C46",
+                        "evolution_stored_predecessor_missing",
+                        "reposim:c46:stored_predecessor_missing".into(),
+                        format!("walk_predecessors({}) = {:?} does not list {} which the commit objects record as a (transitive) predecessor", short(v), listed.iter().map(short).collect::<Vec<_>>(), short(w)),
+                        0,
+                    );
+                    return;
+                }
+            }
+            if known_gap {
+                continue;
+            }
+            if want2.len() >= 3 {
+                shared.model.lock().unwrap().probe("c46_walk_3plus_predecessors");
+            }
             // order: a commit comes after all commits rewritten from it
             for (old, new) in &pairs {
                 if let (Some(io), Some(inew)) = (listed.iter().position(|c| c == old), listed.iter().position(|c| c == new))
@@ -1903,6 +2466,31 @@ impl RepoSim {
             }
         }
         shared.model.lock().unwrap().probe("c46_checked");
+    }
+
+    /// True if no operation in the log records `c`'s predecessors although the
+    /// log contains a criss-cross merge (a merge operation whose parents have
+    /// several closest common ancestors). Such a commit can only have been made
+    /// by the unpublished transaction that merged those ancestors (a crashed
+    /// reconciler's commits are never referenced by anybody).
+    fn unrecorded_and_criss_cross(repo: &Arc<ReadonlyRepo>, c: &CommitId) -> bool {
+        let mut criss_cross = false;
+        let mut ops = std::pin::pin!(jj_lib::op_walk::walk_ancestors(std::slice::from_ref(repo.operation())));
+        while let Some(r) = ops.next().block_on() {
+            let Ok(op) = r else { return false };
+            if op.predecessors_for_commit(c).is_some() {
+                return false;
+            }
+            let Ok(parents) = op.parents().block_on() else { return false };
+            for i in 1..parents.len() {
+                if let Ok(cca) = jj_lib::op_walk::closest_common_ancestors(parents[..i].to_vec(), [parents[i].clone()]).block_on()
+                    && cca.len() > 1
+                {
+                    criss_cross = true;
+                }
+            }
+        }
+        criss_cross
     }
 
     /// C13: nothing a published transaction did is lost in the reconciled
